@@ -108,7 +108,7 @@ func c11ArgMap(onDirective bool) func(s *ast.Schema) string {
 }
 
 var c11Ops = []c11Op{
-	{"validate-fragments", c11Validate(`query Q { node(id: 1) { ...NF } pet { ...PF } } fragment NF on Node { id ... on Pet { kind } } fragment PF on Pet { owner { pets { id } } }`)},
+	{"validate-fragments", c11Validate(`query Q { node(id: 1) { ...NF } pet { ...PF } trio { ... on Pet { id } ...TF ... on Node { id } } search { ... on Named { id } } } fragment NF on Node { id ... on Pet { kind } } fragment PF on Pet { owner { pets { id } } } fragment TF on Trio { __typename ... on Robot { model } }`)},
 	{"validate-suggestions", c11Validate(`{ nam pett { id } node(idd: 1) { id } search(q: 1, ks: [DOGG]) { __typename } ... on Pett { id } }`)},
 	{"validate-introspection", c11Validate(`{ __schema { types { ...T } } __type(name: "Pet") { fields { name } } } fragment T on __Type { name fields { name } }`)},
 	{"validate-variables", c11Validate(c11VarsDoc)},
@@ -125,6 +125,12 @@ var c11Ops = []c11Op{
 	{"format-schema", func(s *ast.Schema) string {
 		var b bytes.Buffer
 		formatter.NewFormatter(&b).FormatSchema(s)
+		h := sha1.Sum(b.Bytes())
+		return fmt.Sprintf("%d bytes %x", b.Len(), h[:6])
+	}},
+	{"format-schema-builtin-compacted", func(s *ast.Schema) string {
+		var b bytes.Buffer
+		formatter.NewFormatter(&b, formatter.WithBuiltin(), formatter.WithCompacted(), formatter.WithComments(), formatter.WithoutDescription()).FormatSchema(s)
 		h := sha1.Sum(b.Bytes())
 		return fmt.Sprintf("%d bytes %x", b.Len(), h[:6])
 	}},
@@ -632,7 +638,7 @@ func runC11(c *explore.Ctx) {
 		s.WallS = time.Since(t0).Seconds()
 	}
 	if c.Thorough() {
-		sub := []int{1, 3, 6, 8, 12}
+		sub := []int{1, 3, 6, 8, 13}
 		s = c.Sub("interleavings-3", fmt.Sprintf("every ordered triple over %d operations as three threads, every schedule with ≤ 2 preemptions", len(sub)), "as above", "schedules with at least one switch")
 		if s != nil {
 			t0 := time.Now()
